@@ -193,8 +193,8 @@ theorem aromRowOk_rows (t : Mol) (n : Nat) (ms ms' : List (Nat × Bond)) (h : ar
 theorem checkThiele_sound (k t : Mol) (h : checkThiele k t = true) : IsAromFormOf k t := by
   unfold checkThiele at h
   simp only [Bool.and_eq_true] at h
-  obtain ⟨hat, hbd⟩ := h
-  refine ⟨⟨?_, ?_⟩, ?_, ?_⟩
+  obtain ⟨⟨hat, hbd⟩, hcl⟩ := h
+  refine ⟨⟨?_, ?_⟩, ?_, ?_, ?_⟩
   · exact map_eq_of_all2 _ _ aromAtomOk_core hat
   · exact map_eq_of_all2 _ _ (aromRowOk_shape t) hbd
   · intro n m b hb
@@ -214,5 +214,8 @@ theorem checkThiele_sound (k t : Mol) (h : checkThiele k t = true) : IsAromFormO
     unfold aromAtomOk at hf
     simp only [Bool.and_eq_true, beq_iff_eq] at hf
     exact hf.2
+  · intro r hr
+    have := List.all_eq_true.mp hcl r hr
+    simpa using this
 
 end ChythonModel.Proofs.C05
